@@ -402,6 +402,43 @@ func main() {
 		addFn(name, g.values(rng.Intn(13)))
 	}
 
+	// ndiff / normalized_difference: relative distance to the reference (the
+	// second argument), also for NEGATIVE references (own random stream, so
+	// that the cases above stay what they were)
+	{
+		r2 := vh.Rng(*seed*1000 + int64(*shard) + 500000007)
+		addFn("ndiff", []interface{}{-75.0, -100.0})
+		addFn("normalized_difference", []interface{}{-75.0, -100.0})
+		addFn("ndiff", []interface{}{3.0, -2.0})
+		addFn("ndiff", []interface{}{nil, -1.0})
+		addFn("ndiff", []interface{}{1.0, nil})
+		addFn("ndiff", []interface{}{1.0})
+		addFn("ndiff", []interface{}{1.0, 2.0, 3.0})
+		addFn("ndiff", []interface{}{true, -2.0})
+		addFn("normalized_difference", []interface{}{"up", -1.0})
+		for i := 0; i < nFn/12; i++ {
+			name := []string{"ndiff", "normalized_difference"}[r2.Intn(2)]
+			x := dyadics[r2.Intn(len(dyadics))] * float64(1+r2.Intn(40))
+			y := dyadics[r2.Intn(len(dyadics))] * float64(1+r2.Intn(40))
+			if r2.Intn(2) == 0 && y > 0 {
+				y = -y
+			}
+			if y == 0 && r2.Intn(4) != 0 {
+				y = -0.5
+			}
+			switch r2.Intn(12) {
+			case 0:
+				addFn(name, []interface{}{nil, y})
+			case 1:
+				addFn(name, []interface{}{x, nil})
+			case 2:
+				addFn(name, []interface{}{x, y, 1.0})
+			default:
+				addFn(name, []interface{}{x, y})
+			}
+		}
+	}
+
 	// ---- 1c. expressions through the real evaluator
 	ev := cmd.VerifC11NewEvaluator()
 	var exprItems []string
@@ -721,6 +758,8 @@ func main() {
 	nfCases = append(nfCases, nfCollectCases(rng, nNf, stats)...)
 	nfCases = append(nfCases, nfAssignCases(rng, nNf+nNf/4, stats)...)
 	nfCases = append(nfCases, nfAuditionCases(rng, nNf*2/3, stats)...)
+	// computed arrays built with the comma operator (judged in Go, see tuples.go; own random stream)
+	nfCases = append(nfCases, tupleCases(vh.Rng(*seed*1000+int64(*shard)+700000001), nNf/2, stats)...)
 	nfBad := 0
 	for _, c := range nfCases {
 		if !c.Ok {
